@@ -694,7 +694,7 @@ def check(fx, rep, tier):
                                   'counter `%s` of %s has type %s: it wraps (or panics on overflow) for a chain of 2^%d calls, which the write buffer '
                                   'still holds - the stream then yields too few replies and the rest is taken for a later exchange'
                                   % (f.get('name'), p_.split('::')[-1], ty, 8 if '8' in base else 16))
-    rep.floor('R06.8', 3, 'integer counters of Chain / ReplyStream')
+    rep.floor('R06.8', 1, 'integer counters of Chain / ReplyStream')
     # R06.6: the stream consumes exactly one frame per receive only if the inbound framing rules hold (same rule code as C01)
     rep.rule('R06.6', 'inbound framing rules of C01 (each receive consumes exactly one frame; no early return with a partial frame buffered)')
     import engine, c01
